@@ -114,7 +114,7 @@ def worker():
         for i, o in enumerate(objs):
             if o is opda.random.DEFAULT_GENERATOR:
                 gidx = i
-        return dict(states=[o.bit_generator.state for o in objs], gidx=gidx, legacy=legd)
+        return dict(states=[None if o is None else o.bit_generator.state for o in objs], gidx=gidx, legacy=legd)
 
     out = [dict(snapshot(), result=None, error=None)]
     for op in spec["ops"]:
@@ -132,6 +132,11 @@ def worker():
                 objs.append(g)
             elif k == "G":
                 opda.random.set_seed(objs[op["ref"]])
+            elif k == "D":       # the caller lets go of a generator (the harness held the only reference)
+                import gc
+                if objs[op["ref"]] is not opda.random.DEFAULT_GENERATOR:
+                    objs[op["ref"]] = None
+                gc.collect()
             elif k == "P":
                 cls, kw = DISTS[op["dist"]]
                 d = {"q": QD, "n": NQ}[cls](**kw) if cls in "qn" else ED(kw["ys"], ws=kw["ws"])
@@ -212,6 +217,10 @@ def model_tokens(op):
         return f"F {op['fit']} {tok(op['gen'])}"
     if k == "M":
         return f"M {op['i']} {op['v']}"
+    if k == "D":
+        # dropping a reference is not an operation of the model (a generator that is never named again has no effect on any
+        # later call): rendered as an overwrite of a returned object that does not exist, which the model treats as a no-op
+        return "M 9999 0"
     raise ValueError(k)
 
 
@@ -227,6 +236,8 @@ def python_line(op, nxt="<next>"):
         return f"g{nxt} = np.random.default_rng(); g{nxt}.bit_generator.state = <state of the observed call's generator>"
     if k == "G":
         return f"opda.random.set_seed(g{op['ref']})"
+    if k == "D":
+        return f"del g{op['ref']}; import gc; gc.collect()    # the last reference to that generator goes away"
     if k == "P":
         cls, kw = DISTS[op["dist"]]
         name = {"q": "QuadraticDistribution", "n": "NoisyQuadraticDistribution"}.get(cls, "EmpiricalDistribution")
@@ -292,6 +303,8 @@ class Tracker:
             self.nrefs += 1
         elif k == "G":
             self.glob = op["ref"]
+        elif k == "D":
+            self.user = [r for r in self.user if r != op["ref"]]
         elif k in ("P", "B", "F"):
             key = self.ld_key(op)
             if key is not None:
@@ -359,6 +372,7 @@ def structured_histories(cpu):
     N = lambda s: dict(op="N", seed=s)  # noqa: E731
     S = lambda s: dict(op="S", seed=s)  # noqa: E731
     M = lambda i, v: dict(op="M", i=i, v=v)  # noqa: E731
+    D = lambda r: dict(op="D", ref=r)  # noqa: E731
     return [
         ("F1 explicit generator", [N(0), B("et", 2, 0, 1, 1), B("et", 2, 0, 1, 1)]),
         ("F1 global generator", [S(0), B("et", 2, 0, None, None), B("et", 2, 0, None, cpu)]),
@@ -396,6 +410,14 @@ def structured_histories(cpu):
         ("fit with fewer than five initial candidates, explicit generator", [N(2), dict(op="F", fit=6, gen=1), N(2), dict(op="F", fit=6, gen=2)]),
         ("fit with fewer than five initial candidates, global generator", [S(1), dict(op="F", fit=6, gen=None), S(1), dict(op="F", fit=6, gen=None)]),
         ("noisy fit with fewer than five initial candidates", [N(0), dict(op="F", fit=7, gen=1), P(2, 3, 1), N(0), dict(op="F", fit=7, gen=2)]),
+        # a generator that is FREED: a later generator may be allocated at its address; nothing computed for the dead object may
+        # be served to the new one (a table keyed on id(generator), or on a weak reference that is not invalidated)
+        ("generator freed, new generator with another seed, same ld key",
+         [N(0), B("et", 2, 0, 1, 1), D(1), N(1), B("et", 2, 0, 2, 1), D(2), N(2), B("et", 2, 0, 3, 1), D(3), N(7), B("et", 2, 0, 4, 1)]),
+        ("generator freed, new generator with another seed, same ld key (hd, default n_jobs)",
+         [N(1), B("hd", 4, 1, 1, None), D(1), N(2), B("hd", 4, 1, 2, None), D(2), N(0), B("hd", 4, 1, 3, None)]),
+        ("generator freed between samples and fits",
+         [N(1), P(0, 3, 1), dict(op="F", fit=0, gen=1), D(1), N(2), P(0, 3, 2), D(2), N(7), dict(op="F", fit=0, gen=3)]),
     ]
 
 
@@ -475,7 +497,7 @@ def run(seed, tier, replay=None):
         found, by_value = [], {}
         for i, op in enumerate(ops):
             before, after, p = trace[i], trace[i + 1], preds[i]
-            if after["error"]:
+            if after["error"] or op["op"] == "D":
                 continue
             if after["gidx"] != p["glob"]:
                 found.append(("disagree", i, f"DEFAULT_GENERATOR is object {after['gidx']}, model says {p['glob']}", {}))
@@ -610,7 +632,7 @@ def run(seed, tier, replay=None):
             else:
                 rep.count(f"further violations keyed {k} (not listed)")
     return rep.result(
-        rule="28 structured histories (incl. pairs of calls on distinct generators in equal states) (F1 explicit/global, set_seed rebinding, n_jobs, overwriting returned arrays, "
+        rule="31 structured histories (incl. generators that are freed and re-allocated), (incl. pairs of calls on distinct generators in equal states) (F1 explicit/global, set_seed rebinding, n_jobs, overwriting returned arrays, "
              "set_seed(generator), size 0, fits) + random histories of 2-12 calls over seeds {0,1,2,7}, 8 distributions x "
              "sizes {None,3,(2,2),0,1}, 7 samples (n=1..4) x confidences {.5,.9,.25} x methods {dkw,ks,ld_et,ld_hd} x n_jobs "
              "{1,2,16,None}, small fits, overwrites; the observed call repeats an earlier ld call's arguments with "
